@@ -76,7 +76,7 @@ def rule_guard(ctx):
                                % (len(sites), C.short(rk), label, kind), where,
                                detail={"guard_blocks_lines": sorted(b.blocks[g].term["line"] for g in guards), "call_lines": sorted(b.blocks[x].term["line"] for x, _ in sites)})
     ctx.floor("cache-writes", n_w, 3)
-    ctx.floor("write-after-search-call pairs", n_pairs, 2 * (3 + 3 + 3))
+    ctx.floor("write-after-search-call pairs", n_pairs, 2 * (2 + 2 + 2))  # three writes, each after at least two search calls, two guards
 
 
 def rule_dummy(ctx):
